@@ -157,7 +157,7 @@ def classes(case):
 def _random(draw):
     c = draw(st.integers(0, 3))
     if c == 0:
-        s = draw(st.text(alphabet=st.sampled_from(ALPHA + list('b0-^')), min_size=5, max_size=40))
+        s = draw(st.text(alphabet=st.sampled_from(ALPHA + list('b0-^') + ['\x1c', '\x1d', '\x1e', '\x1f', '\x00']), min_size=5, max_size=40))
     elif c == 1:
         j = draw(trees.any_trees(max_nodes=5))
         s = draw(texts.spaced(draw(texts.comment_lines()) + texts.tokens_of(j)))
@@ -173,11 +173,11 @@ def _random(draw):
     return {'s': s}
 
 
-LONG_UNITS = ['# ::snt ', '(a / alpha :ARG0 (b / beta) ', ':op1 "a long string constant ', 'x~e.1 y~2 ', '\u00e9\xa0 ']
+LONG_UNITS = ['\xa0# ::id ', ' \u3000# ::snt x ', 'a\x1cb # c\x1dd "e\x1ef" \x1f', '# ::snt ', '(a / alpha :ARG0 (b / beta) ', ':op1 "a long string constant ', 'x~e.1 y~2 ', '\u00e9\xa0 ']
 
 
 def _long_chunks(tier):
-    return [{'u': i} for i in range(len(LONG_UNITS))]
+    return [{'u': i, 'pows': [4096, 65536] if tier == 'quick' else [4096, 8192, 16384, 32768, 65536, 131072]} for i in range(len(LONG_UNITS))]
 
 
 def _long_cases(ch):
@@ -188,6 +188,18 @@ def _long_cases(ch):
         line = (u * (n // len(u) + 1))[:n].rstrip('\\')
         for s in (line, 'x\n' + line, line + '\n' + line, line + '\n\n' + line + '\n' + line, 'y z\n\n\n' + line + '\r\n' + line):
             yield {'s': s}
+    if ch['u'] == 3:
+        # a CRLF (and a lone CR, a lone LF) sitting exactly on a power-of-two character offset of a long input
+        for p in ch['pows']:
+            body = ('(a / b) # c\n' * (p // 12 + 1))[:p - 8] + 'x y ~1 '
+            for term in ('\r\n', '\r', '\n'):
+                yield {'s': body + 'z' + term + '(d / e)' + term + 'f "g"'}
+                yield {'s': body + term + '(d / e)' + term + 'f'}
+    if ch['u'] == 4:
+        # literal prefixes that look like something else (URLs, drive letters, times, namespaces)
+        for lit in ('http://a/b~1', 'https://a.b/c?d=e', 'file:///x', 'mailto:a@b', 'C:\\dir', '10:30', 'a::b', 'urn:x:y', '//', 'ftp://h:21/p'):
+            for tpl in ('%s', '(a :r %s)', '(a / %s :s b)', ':r %s ', 'r(a, %s)', '# %s\n%s'):
+                yield {'s': tpl.replace('%s', lit)}
 
 
 def stages(tier):
